@@ -32,14 +32,32 @@ def strategy(tier):
         # the poll interval is also how long a submitter trusts its last squeue answer: seconds, a minute, five minutes
         return st.tuples(gen.scenarios(**kw), st.sampled_from([1, 1, 1, 60, 300])).map(lambda t: dict(t[0], poll=t[1]))
 
-    def cases(**kw):
-        return st.fixed_dictionaries({"scn": scn_with_poll(**kw), "schedule": gen.schedules(),
+    @st.composite
+    def wide(draw):
+        # many small batches on a busy cluster: 8-14 (nearly) independent jobs, 1-2 per batch, max_nodes 2-5, a long poll
+        # interval (= how long a submitter trusts its last squeue answer), so that rounds start with several free slots
+        # while earlier batches are still queued
+        n = draw(st.integers(8, 14))
+        jobs = [{"name": f"j{i}", "blocked_by": ([f"j{draw(st.integers(0, i - 1))}"] if i and draw(st.integers(0, 5)) == 0 else []),
+                 "cancel": False, "rc": draw(st.sampled_from([0, 0, 0, 1])), "est": 1, "group": 0} for i in range(n)]
+        g = draw(gen.group_params(n))
+        g.update(batch_size=draw(st.sampled_from([1, 1, 2])), time_based=False, tscale=1)
+        return {"jobs": jobs, "groups": [g], "max_nodes": draw(st.sampled_from([2, 3, 3, 4, 5])),
+                "poll": draw(st.sampled_from([60, 300, 300])), "reports": False, "dry_run": False,
+                "dsub": draw(st.sampled_from([True, True, False])), "mode": "hpc",
+                "hooks": {"setup": False, "teardown": False, "node_setup": False, "node_teardown": False}}
+
+    def cases(scn=None, min_faults=0, **kw):
+        return st.fixed_dictionaries({"scn": scn if scn is not None else scn_with_poll(**kw), "schedule": gen.schedules(),
                                       # resubmit-jobs issued the moment the submission is complete and the role is free:
                                       # the batch that completed it is then still running
                                       "resubmit_at_completion": st.sampled_from([False, False, True]),
                                       # operator rounds (try-submit-jobs / show-status) near the end of batches: rounds that
                                       # start with several free slots
                                       "late": C.late_ops(2),
+                                      # a busy cluster: batches wait in the queue (PENDING) for this many virtual seconds,
+                                      # so a round's earlier batches are still queued while its later sbatch calls are retried
+                                      "queue_hold": st.sampled_from([0, 0, 0, 90, 600, 3600]),
                                       "exotic": st.lists(st.fixed_dictionaries({"at": st.integers(10, 400), "steps": st.integers(10, 200),
                                                                                  "which": st.integers(0, 7)}), max_size=3),
                                       # the limits also hold while the scheduler's commands fail: the n-th squeue call fails
@@ -49,16 +67,19 @@ def strategy(tier):
                                                                                            "squeue_fail_once"]), "nth": st.integers(0, 12),
                                                                  "len": st.sampled_from([7, 7, 14, 21])}),
                                           st.fixed_dictionaries({"kind": st.sampled_from(["sbatch_fail_once", "sbatch_fail_series"]),
-                                                                 "nth": st.integers(0, 4)})),
-                                          max_size=2)})
+                                                                 "nth": st.integers(0, 8)}),
+                                          # the scheduler rejects every 2nd / 3rd distinct batch for good
+                                          st.fixed_dictionaries({"kind": st.just("sbatch_fail_every"), "every": st.sampled_from([2, 3]),
+                                                                 "phase": st.integers(0, 2)})),
+                                          min_size=min_faults, max_size=2)})
 
-    return st.one_of(cases(), cases(), cases(), cases(mode="local", max_groups=1))
+    return st.one_of(cases(), cases(), cases(), cases(scn=wide(), min_faults=1), cases(mode="local", max_groups=1))
 
 
 def run_case(case):
     scn = case["scn"]
     with H.Sim(scn, schedule=case["schedule"], exotic=case.get("exotic", ()),
-               faults=[dict(f) for f in case.get("faults", [])]) as sim:
+               faults=[dict(f) for f in case.get("faults", [])], queue_hold=case.get("queue_hold", 0)) as sim:
         import os
 
         if case.get("resubmit_at_completion") and scn["mode"] == "hpc":
@@ -114,6 +135,8 @@ def run_case(case):
             res["classes"].append("batch_larger_than_workers")
         if sim.w.events("exotic"):
             res["classes"].append("batch_shown_in_unusual_state")
+        if case.get("queue_hold"):
+            res["classes"].append("busy_cluster_batches_wait_in_queue")
         if res["nontrivial"] or v:
             res["sample"] = C.sample_of(case, sim, {"peak_active_batches": peak_nodes})
         if v:
